@@ -7,11 +7,12 @@ CHECK = {
     "level_text": "Every element of a stated finite grammar is executed on the real KeyTag, dsDigestMatches/VerifyDS, verifySignature/cryptoVerify/VerifyRRSIG and compared with the library (and, for RSA exponents the library cannot load, with plain modular exponentiation over an independently built RFC 4034 canonical form): keys are real RSA (512-4097 bit, exponents 3..2^64+13), P-256, P-384 and Ed25519 keys under every algorithm number, several flag/protocol values and malformed base64 encodings; signatures are produced by the library's RRSIG.Sign over an independent signer and then mutated by every single-bit flip, every truncation, +-1 octet, arithmetic aliases (s+n, n-s, r+n, padded r/s) and malformed PKCS#1 blocks; DS digests for types 0-255 with every bit flip and truncation.",
     "level_note": "Input enumeration, not all byte strings. The 'no super-linear time' clause is covered only as operation counts through the SignatureWork/DSDigestWork seam (duplicated signatures/keys/DS must not multiply public-key or digest operations) and as verdicts on the size limits (moduli >4096 bit, exponents >64 bit, key material >4092 octets are refused); wall-clock behaviour of a single modexp is not measured. ECDSA/Ed25519 arithmetic itself is the standard library's on both sides (the library is the reference there); RSA has a fully independent math/big reference which is cross-checked against the library on every narrow-exponent case.",
     "rule": "cases = (material x algorithm x flags x protocol x base64 manipulation) for key tags; (key x digest type 0-255 x digest mutation) for DS; (key x RRset x structural mutation) + (key x RRset x every bit flip / truncation / arithmetic alias of the signature) for RRSIGs; message-level arrangements for VerifyRRSIG/VerifyDS; 'nontrivial' = distinct cases in which the reference ACCEPTS, or whose input differs from a reference-accepted input by one bit, one octet or one field step (key tags: distinct cases with a non-zero tag or a valid encoding)",
+    "known_divergence": "names compared with strings.EqualFold/ToLower (Unicode folding) instead of ASCII folding: cases sig|unicode-fold|* are genuine, reported violations on the pinned tree",
     "assumptions": ["miekg/dns v1.1.72 KeyTag/ToDS/RRSIG.Verify and Go's crypto/ecdsa, crypto/ed25519 are the reference for everything except wide-exponent RSA",
                     "signatures carry inception 0 / expiration 2^32-1 so VerifyRRSIG's wall-clock validity check is constant for decades; two arrangements use a 1970 window as 'expired'",
                     "keys are frozen embedded material (6 RSA moduli, 2 keys per curve)"],
-    "bounds": {"quick": "59 keys x 20 RRsets (first 12 keys all RRsets, others 3) x 67 structural + 6 PKCS#1-block mutations; every bit flip and truncation on 3 RRsets per key (stride 8 on two of them for 4096-bit/P-384); 37 materials x ~170 encodings x 10 algorithms + algorithms 0-255 x 8 flags x 3 protocols on valid encodings; 77 DS keys x digest types 0-255",
-               "thorough": "all 6 moduli x 8 exponents x 4 RSA algorithms, every RRset x every bit flip; every base64 position <= 1040 for every material x algorithms 0-255"},
+    "bounds": {"quick": "58 keys x 20 RRsets = 1160 bases x (61 structural + 6 PKCS#1-block mutations); every bit flip and every truncation of the signature on 10 RRsets per key (stride 8 for 4096-bit and P-384 keys except on the first RRset); algorithms 0-255 through the dispatcher for 5 materials; 35 key materials x ~87 base64 manipulations x 10 algorithms + algorithms 0-255 x 8 flag values x 3 protocol values on every valid encoding; 64 DS keys x digest types 0-255 x digest mutations; 28-31 VerifyDS and 17 VerifyRRSIG arrangements per key; duplicate-work counts 1..32",
+               "thorough": "all 6 moduli (512/1023/1024/2048/4096/4097 bit) x 8 exponents x 4 RSA algorithms (~250 keys) x 20 RRsets, every bit flip on 20/10/4 RRsets for <=1024 / 2048,P-384 / >=4096-bit keys; 64 materials x every base64 position <= 1040 x algorithms 0-255"},
     "units": {
         "diff": {"pkg": "middleware/resolver/dnssec", "run": "TestVerifC14",
                  "harness": {"middleware/resolver/dnssec": ["zz_verif_c14_*.go"]},
